@@ -407,7 +407,7 @@ theorem stepSpawn_G4 {r : Fin n} {s s' : St n} (h : G4 r s) (v p0 : Fin n) (hs :
   unfold stepSpawn at hs
   split at hs
   · rename_i hg
-    obtain ⟨hav, hap, hvr, hvp, hqv, hov, _, hqp, hop, _, _, hnoch⟩ := hg
+    obtain ⟨hav, hap, hvr, hvp, hqv, hov, _, hqp, hop, _, _, _, hnoch⟩ := hg
     cases hs
     exact h.spawn v p0 hav hap hvr hvp hqv hov hqp hop hnoch rfl rfl rfl rfl rfl rfl rfl rfl rfl
   · cases hs
